@@ -23,8 +23,20 @@ A, M, H, U, HT, MT = ("pyvolutionary/abstract.py", "pyvolutionary/models.py", "p
 MUTANTS = [
     # ---- C01 / C05 / C13 / C14: the correction funnel
     ("cont_clip_upper_dropped", ["C01", "C05", "C13", "C14"], M,
-     "return float(np.clip(value, self.lower_bound, self.upper_bound))", "return float(max(value, self.lower_bound))"),
-    ("disc_no_clip", ["C01", "C05", "C13"], M, "return int(np.clip(value, lb, ub))", "return int(value)"),
+     "return min(max(float(np.clip(value, self.lower_bound, self.upper_bound)), self.lower_bound), self.upper_bound)",
+     "return float(max(value, self.lower_bound))"),
+    ("disc_no_clip", ["C01", "C05", "C13"], M, "return min(max(int(np.clip(value, lb, ub)), lb), ub)", "return int(value)"),
+    ("cont_clip_in_the_precision_of_the_input", ["C01", "C02", "C13"], M,          # the pinned-tree defect fixed in 023a9ec
+     "return min(max(float(np.clip(value, self.lower_bound, self.upper_bound)), self.lower_bound), self.upper_bound)",
+     "return float(np.clip(value, self.lower_bound, self.upper_bound))"),
+    ("cont_clip_converts_first", ["C13"], M,          # my own first repair: OverflowError for integers beyond the float range
+     "return min(max(float(np.clip(value, self.lower_bound, self.upper_bound)), self.lower_bound), self.upper_bound)",
+     "return float(np.clip(float(value), self.lower_bound, self.upper_bound))"),
+    ("henry_gas_residual_dropped", ["C10"], "pyvolutionary/henry_gas_solubility/henry_gas_solubility_optimization.py",
+     "self._generate_group_population(self._config.n_clusters, self.__n_elements)",
+     "self._generate_group_population(self._config.n_clusters, self.__n_elements, False)"),
+    ("cuckoo_slice_from_the_end", ["C10"], "pyvolutionary/cuckoo_search/cuckoo_search_optimization.py",
+     "pop[:(self._config.population_size - self.__n_cut)]", "pop[:-self.__n_cut]"),
     ("disc_upper_off_by_one", ["C01", "C05", "C13", "C14"], M,
      "return 0, len(self.choices) - 1", "return 0, len(self.choices)"),
     ("init_agent_skips_correction_when_given", ["C01"], M,          # C05 holds: Task.solve corrects again
@@ -188,8 +200,10 @@ NEUTRAL = [
      "    pop_new = population.copy()\n    pop_new.sort(key=lambda agent: agent.cost, reverse=(task_type == TaskType.MAX))\n    return pop_new",
      "    return sorted(population, key=lambda agent: agent.cost, reverse=(task_type == TaskType.MAX))"),
     ("clip_as_min_max", ["C13", "C01"], M,
-     "return float(np.clip(value, self.lower_bound, self.upper_bound))",
-     "return float(np.minimum(np.maximum(value, self.lower_bound), self.upper_bound))"),
+     "return min(max(float(np.clip(value, self.lower_bound, self.upper_bound)), self.lower_bound), self.upper_bound)",
+     # (np.minimum(np.maximum(...)) is no longer neutral: unlike np.clip it raises OverflowError for integers beyond the
+     #  float range, which C13 continuous_low_precision reports - so the neutral rewrite only reorders the second clip)
+     "return max(min(float(np.clip(value, self.lower_bound, self.upper_bound)), self.upper_bound), self.lower_bound)"),
     ("stop_rule_reordered", ["C04"], A,
      "        has_to_stop = cycle >= max_cycles\n", "        has_to_stop = not (cycle < max_cycles)\n"),
     ("fitness_as_if_else", ["C02"], H,
